@@ -470,7 +470,14 @@ class Evaluator:
             self.bind_target(g.target, Other(), env2)
             el = self.ev(e.elt, env2)
             if isinstance(el, Deg):
-                return ListV((0, 0), el.v, {}) if False else ListV(("?", 0), el.v, {})
+                # [E for i in range(lo, n)] with n a known count (the order of a tensor, a list length): n - lo elements
+                ln = ("?", 0)
+                if isinstance(it, ast.Call) and is_name(it.func, "range") and 1 <= len(it.args) <= 2 and not g.ifs:
+                    hi = self.ev(it.args[-1], env)
+                    lo = _int_const(it.args[0]) if len(it.args) == 2 else 0
+                    if isinstance(hi, Other) and hi.count is not None and lo is not None:
+                        ln = (hi.count[0] - lo, hi.count[1])
+                return ListV(ln, el.v, {})
             return Other()
         length = src_list.length
         if g.ifs:
